@@ -14,34 +14,56 @@ Proof. intros n os. exact (D_run os _ (D_init n)). Qed.
 Print Assumptions C45_shutdown_is_total.
 
 (* once the cluster is shut down, every further operation leaves the executor queue without new tasks, the scheduler
-   without new timers (none fires either), is never "Accepted"; user-level submissions are Refused *)
+   without new timers (none fires either) and is never "Accepted" *)
 Theorem C45_no_new_connections : forall n os o, let s := run (init n) os in
   cl_down s = true ->
   let s' := fst (step s o) in
-  ((forall t, In t (queue s') -> In t (queue s)) /\ timers s' = timers s /\ snd (step s o) <> Accepted) \/
-  ((o = OSubmit \/ o = ORequest) /\ step s o = (s, Refused)).
+  (forall t, In t (queue s') -> In t (queue s)) /\ timers s' = timers s /\ snd (step s o) <> Accepted.
 Proof.
   intros n os o s Hc. destruct (C45_shutdown_is_total n os Hc) as (A & B & C).
-  exact (no_new_work s o Hc A B C).
+  destruct (after_shutdown s o (conj Hc (conj A (conj B C)))) as ((Q & T & _ & _) & R). auto.
 Qed.
 Print Assumptions C45_no_new_connections.
 
-(* ... and a step after the shutdown starts at most one connection attempt (that of a task queued before the shutdown, which
-   then sees the flag): a walk over the query plan never goes on to further hosts after Cluster.shutdown *)
+(* ... and a step after the shutdown starts at most one connection attempt per task that was already queued (one, or two
+   when two queued pool creations overlap): a walk over the query plan never goes on to further hosts, Session.shutdown
+   itself starts none *)
 Theorem C45_no_late_attempts : forall n os o, let s := run (init n) os in
-  cl_down s = true -> attempts (fst (step s o)) <= S (attempts s).
+  cl_down s = true -> attempts (fst (step s o)) <= attempts s + match o with ORunNested _ _ => 2 | _ => 1 end.
 Proof.
   intros n os o s Hc. destruct (C45_shutdown_is_total n os Hc) as (A & B & C).
-  exact (one_late_attempt s o Hc A B C).
+  destruct (after_shutdown s o (conj Hc (conj A (conj B C)))) as ((_ & _ & L & _) & _). exact L.
 Qed.
 Print Assumptions C45_no_late_attempts.
 
-Theorem C45_requests_refused : forall s h, sess_down s = true ->
-  step s ORequest = (s, Refused) /\ step s OSubmit = (s, Refused) /\ step s (OPoolTask h) = (s, Refused) /\
-  snd (step s (OReplace h)) <> Accepted.
+(* the shutdown calls themselves start no connection attempt (initial pool creations that have not started are cancelled,
+   not waited for) *)
+Theorem C45_shutdown_starts_nothing : forall s,
+  attempts (cluster_shutdown s) = attempts s /\ attempts (session_shutdown s) = attempts s /\
+  (forall t, In t (queue (session_shutdown s)) -> In t (queue s)) /\
+  (sess_down s = false -> forall h, ~ In (KAddPool h true) (queue (session_shutdown s))).
 Proof.
-  intros s h Hs. simpl. rewrite Hs. repeat split; auto.
-  destruct (pool_conn (pool s h)); simpl; discriminate.
+  intros s. assert (E2 : attempts (session_shutdown s) = attempts s) by (unfold session_shutdown; destruct (sess_down s); reflexivity).
+  assert (E3 : attempts (cc_shutdown s) = attempts s) by (unfold cc_shutdown; simpl; destruct (cc_down s); simpl; auto; destruct (cc_conn s); reflexivity).
+  split; [|split; [exact E2|split]].
+  - unfold cluster_shutdown. destruct (cl_down s); auto.
+    unfold session_shutdown, cc_shutdown. simpl. destruct (cc_down s); simpl; destruct (sess_down s); simpl; auto;
+      destruct (cc_conn s); simpl; destruct (sess_down s); reflexivity.
+  - unfold session_shutdown. destruct (sess_down s); simpl; auto. intros t Ht. apply filter_In in Ht. tauto.
+  - intros Hs h Hin. unfold session_shutdown in Hin. rewrite Hs in Hin. simpl in Hin. apply filter_In in Hin.
+    destruct Hin as [_ Hf]. discriminate.
+Qed.
+Print Assumptions C45_shutdown_starts_nothing.
+
+Theorem C45_requests_refused : forall s h i b, sess_down s = true ->
+  step s ORequest = (s, Refused) /\ step s OSubmit = (s, Refused) /\ step s (OPoolTask h i) = (s, Refused) /\
+  snd (step s (OReplace h b)) <> Accepted /\ snd (step s (OConnLost h)) <> Accepted.
+Proof.
+  intros s h i b Hs. simpl. rewrite Hs. repeat split; auto.
+  - destruct (pool s h) as [q|]; [|discriminate]. destruct (pconn q); [|discriminate].
+    destruct (prepl q || pshut q); simpl; discriminate.
+  - destruct (pool s h) as [q|]; [|discriminate]. destruct (pconn q); [|discriminate].
+    destruct (pshut q); [discriminate|]. destruct (prepl q); simpl; discriminate.
 Qed.
 Print Assumptions C45_requests_refused.
 
@@ -70,11 +92,30 @@ Proof.
 Qed.
 Print Assumptions C45_session_all_closed.
 
+(* at ANY time (no shutdown needed): an open connection is owned by the control connection or by a pool registered in the
+   session, as its current connection or in its trash.  Nothing is orphaned (two overlapping pool creations for one host, a
+   replacement, a lost connection ...), so the shutdown that comes later reaches every connection. *)
+Theorem C45_open_has_owner : forall n os c, let s := run (init n) os in
+  c < nconn s -> In c (closed s) \/ cc_conn s = Some c \/ exists h, In c (opl_conns (pool s h)).
+Proof.
+  intros n os c s Hc. pose proof (KK_run os _ (KK_init n)) as HK. fold s in HK. exact (open_has_owner s c HK Hc).
+Qed.
+Print Assumptions C45_open_has_owner.
+
 (* concrete non-trivial runs: shutdown with queued pool creation, control reconnect and timers: everything ends closed *)
-Example C45_nonvacuous : let s := run (init 2) [OPoolTask 0; OCCReconnect; OStartRecon 1; OFire 0 Err false; OClusterShutdown;
+Example C45_nonvacuous : let s := run (init 2) [OPoolTask 0 false; OCCReconnect; OStartRecon 1; OFire 0 Err false; OClusterShutdown;
                                                ORun 0 Ok false; ORun 0 Ok false] in
   cl_down s = true /\ queue s = [] /\ nconn s = 5 /\ all_closed s = true.
 Proof. vm_compute. repeat split; auto. Qed.
-Example C45_nonvacuous_during : let s := run (init 1) [OPoolTask 0; OReplace 0; ORun 1 Ok true; ORun 0 Ok false] in
+Example C45_nonvacuous_during : let s := run (init 1) [OPoolTask 0 false; OReplace 0 false; ORun 1 Ok true; ORun 0 Ok false] in
   cl_down s = true /\ nconn s = 4 /\ all_closed s = true.
+Proof. vm_compute. auto. Qed.
+(* a trashed connection with a live request, the replacement lost, then the shutdown: the trash is closed too *)
+Example C45_nonvacuous_trash : let s0 := run (init 1) [OReplace 0 true; ORun 0 Ok false; OConnLost 0] in
+  let s := run s0 [OClusterShutdown] in
+  opl_conns (pool s0 0) = [1] /\ all_closed s = true /\ nconn s = 3.
+Proof. vm_compute. auto. Qed.
+(* two pool creations for one host overlapping: the pool that loses its place is shut down, nothing is orphaned *)
+Example C45_nonvacuous_nested : let s := run (init 1) [OPoolTask 0 false; OPoolTask 0 false; ORunNested 0 0] in
+  nconn s = 4 /\ opl_conns (pool s 0) = [2] /\ closed s = [3; 1].
 Proof. vm_compute. auto. Qed.
